@@ -2,8 +2,10 @@
    value kinds): integers, strings (a missing field is one), function literals, quoted variables.
    [check] follows user-function calls and the literals consumed by if$ / while$; it is a plain
    computable function, so "this program is well-typed" is decided by evaluation.
-   Not accepted (the checker answers None): call.type$ (which function runs depends on the database),
-   top$/stack$/int.to.str$ on anything but integers and strings, mixed-kind comparisons. *)
+   call.type$ is checked for every entry type of the database ([tys]): the type's function -- or default.type,
+   or nothing -- must preserve the stack shape.
+   Not accepted (the checker answers None): top$/stack$/int.to.str$ on anything but integers and strings
+   (Python would print the repr of an interpreter object), mixed-kind comparisons. *)
 From Pybtex Require Import Base.Prelude Base.PyChar Base.PyStr Model.BibtexStr Model.Wrap Model.Bst.
 Local Open Scope Z_scope.
 
@@ -37,9 +39,14 @@ Fixpoint stack_eqb (s t : list aval) : bool :=
 Section Check.
   Variable G : list (str * obj).      (* interpreter.vars when the program starts *)
   Variable ent : bool.                (* running under ITERATE / REVERSE, after READ *)
+  Variable tys : list str.            (* the entry types that occur in the database *)
 
   (* one built-in, given how to check code popped from the stack *)
-  Definition check_builtin (call : list aval -> aval -> option (list aval)) (b : builtin) (s : list aval)
+  Definition branch_ok (o : option (list aval)) (r : list aval) : bool :=
+    match o with Some s2 => stack_eqb s2 r | None => false end.
+
+  Definition check_builtin (call : list aval -> aval -> option (list aval))
+             (cid : list aval -> str -> option (list aval)) (b : builtin) (s : list aval)
     : option (list aval) :=
     match b, s with
     | (B_gt | B_lt), x :: y :: r =>        (* integers only, as in BibTeX (Python would also compare strings) *)
@@ -60,6 +67,20 @@ Section Check.
     | B_change_case, m :: x :: r => if is_astr m && is_astr x then Some (AStr :: r) else None
     | B_chr_to_int, x :: r => if is_astr x then Some (AInt :: r) else None
     | B_cite, r => if ent then Some (AStr :: r) else None
+    | B_call_type, r =>
+      (* whichever entry type the current entry has: its function (or default.type, or nothing) must leave the
+         stack as it found it *)
+      let r' := map weaken r in
+      if ent && forallb (fun t =>
+                  match vlookup t G with
+                  | Some _ => branch_ok (cid r' t) r'
+                  | None => match vlookup nm_default_type G with
+                            | Some _ => branch_ok (cid r' nm_default_type) r'
+                            | None => true
+                            end
+                  end) tys
+      then Some r' else None
+    | B_stack, r => if forallb (fun a => is_aint a || is_astr a) r then Some [] else None
     | B_duplicate, x :: r => Some (x :: x :: r)
     | B_empty, x :: r => if is_astr x then Some (AInt :: r) else None
     | B_format_name, f :: n :: x :: r => if is_astr f && is_aint n && is_astr x then Some (AStr :: r) else None
@@ -137,7 +158,7 @@ Section Check.
             | Some (OStr _) => Some (AStr :: s)
             | Some (OEInt _) => if ent then Some (AInt :: s) else None
             | Some (OEStr _) | Some (OField _) | Some OCrossref => if ent then Some (AStr :: s) else None
-            | Some (OBuiltin b) => check_builtin call b s
+            | Some (OBuiltin b) => check_builtin call (fun s n => check f s [IId n]) b s
             | None => None
             end
           end in
